@@ -100,7 +100,18 @@ GATES.update({("quantum", "rz"): (1, 1), ("quantum", "rx"): (1, 1), ("quantum", 
               ("qsystem", "rz"): (1, 1), ("qsystem", "zz_phase"): (2, 1), ("qsystem", "phased_x"): (1, 2)})
 
 
+# functional wrappers (std/quantum/functional.py, std/qsystem/functional.py: "the same gates ... functional syntax"):
+# documented matrix = that of the in-place function of the same name
+FUNCTIONAL_GATES = {("quantum", k[1]) for k in GATES if k[0] == "quantum"} | {
+    ("qsystem", "phased_x"), ("qsystem", "zz_phase"), ("qsystem", "zz_max"), ("qsystem", "rz")}
+
+
+def base_key(modl, name):
+    return (modl[: -len(".functional")] if modl.endswith(".functional") else modl, name)
+
+
 def doc_matrix(key, halfturns):
+    key = base_key(*key)
     if key in DOC_FIXED:
         return DOC_FIXED[key]
     return DOC_PARAM[key](*[h * math.pi for h in halfturns])
@@ -289,13 +300,29 @@ def angle_ok(e, params):
 def step_src(st):
     modl, name, qs, angs = st
     args = [f"q{q}" for q in qs] + [angle_src(a) for a in angs]
-    return f"{modl}.{name}({', '.join(args)})"
+    call = f"{modl.replace('.', '_')}.{name}({', '.join(args)})"
+    if modl.endswith(".functional"):
+        return ", ".join(f"q{q}" for q in qs) + " = " + call  # functional style: rebind the returned qubits
+    return call
 
 
-def circuit_src(fname, n, nparams, steps):
-    ps = ", ".join([f"q{i}: qubit" for i in range(n)] + [f"f{k}: float" for k in range(nparams)])
+def circuit_src(fname, n, nparams, steps, owned=False):
+    """in-place style: borrowed qubits, returns None.  owned style (needed for functional wrappers): the qubits are
+    taken `@owned` and returned as a tuple in order"""
+    own = " @ owned" if owned else ""
+    ps = ", ".join([f"q{i}: qubit{own}" for i in range(n)] + [f"f{k}: float" for k in range(nparams)])
     body = "\n".join("    " + step_src(s) for s in steps) or "    pass"
+    if owned:
+        ret = "tuple[" + ", ".join(["qubit"] * n) + "]"
+        return f"@guppy\ndef {fname}({ps}) -> {ret}:\n{body}\n    return " + ", ".join(f"q{i}" for i in range(n)) + "\n"
     return f"@guppy\ndef {fname}({ps}) -> None:\n{body}\n"
+
+
+def to_functional(st):
+    modl, name, qs, angs = st
+    if (modl, name) in FUNCTIONAL_GATES:
+        return (modl + ".functional", name, qs, angs)
+    return st
 
 
 def oracle_state(n, steps, params, psi0):
@@ -316,11 +343,12 @@ def basis_state(n, x):
     return [1 + 0j if i == x else 0j for i in range(1 << n)]
 
 
-def rand_step(rng, n, nparams, keys):
+def rand_step(rng, n, nparams, keys, functional=False):
     key = rng.choice(keys)
     nq, na = GATES[key]
     qs = tuple(rng.sample(range(n), nq))
-    return (key[0], key[1], qs, [rand_angle(rng, nparams) for _ in range(na)])
+    st = (key[0], key[1], qs, [rand_angle(rng, nparams) for _ in range(na)])
+    return to_functional(st) if functional and rng.random() < 0.7 else st
 
 
 # --------------------------------------------------------------------------- running on the interpreter
@@ -548,14 +576,25 @@ def _systematic_programs(usable):
                 if sep:
                     steps.append((sep[0][0], sep[0][1], (tr[idx % 3],), [("lit", 0.23 + 0.05 * idx)]))
             progs.append((f"order:toffoli{n}", n, 2, steps))
+    # the same circuits through the functional wrappers (`q0, q1 = quantum_functional.cy(q0, q1)`), every qubit order
+    progs = [(t, n, k, st, False) for t, n, k, st in progs]
+    progs += [("f:" + t, n, k, [to_functional(x) for x in st], True) for t, n, k, st, _o in progs]
     return progs
 
 
-def _compare_circuit(hugr, fname, n, steps, params, psi0):
+def _compare_circuit(hugr, fname, n, steps, params, psi0, owned=False):
     """-> None if equal up to global phase, else short description"""
-    _outs, real, ids = interp_run(hugr, fname, n, params, psi0)
+    outs, real, ids = interp_run(hugr, fname, n, params, psi0)
     if ids != list(range(n)):
         return f"qubits left {ids}"
+    if owned:
+        # the program returns (q0, …, q_{n-1}): read the state in the order of the RETURNED qubits
+        import numpy as np
+
+        order = [getattr(o, "id", None) for o in outs[:n]]
+        if sorted(x for x in order if x is not None) != list(range(n)):
+            return f"returned values {outs!r} are not the {n} qubits"
+        real = [complex(x) for x in np.transpose(np.array(real).reshape([2] * n), order).reshape(-1)]
     want = oracle_state(n, steps, params, psi0)
     if same_up_to_phase(real, want):
         return None
@@ -567,26 +606,34 @@ def _params_ok(steps, params):
     return all(angle_ok(a, params) for st in steps for a in st[3])
 
 
-MEAS_OPS = [  # label, call template, owned, returns bit, kind
-    ("quantum.measure", "quantum.measure(q{k})", True, True, "measure"),
-    ("qubit.measure", "q{k}.measure()", True, True, "measure"),
-    ("quantum.project_z", "quantum.project_z(q{k})", False, True, "project"),
-    ("qubit.project_z", "q{k}.project_z()", False, True, "project"),
-    ("quantum.reset", "quantum.reset(q{k})", False, False, "reset"),
-    ("quantum.discard", "quantum.discard(q{k})", True, False, "discard"),
-    ("qubit.discard", "q{k}.discard()", True, False, "discard"),
-    ("qsystem.measure", "qsystem.measure(q{k})", True, True, "measure"),
-    ("qsystem.measure_and_reset", "qsystem.measure_and_reset(q{k})", False, True, "measure_reset"),
-    ("qsystem.reset", "qsystem.reset(q{k})", False, False, "reset"),
-    ("qsystem.qfree", "qsystem.qfree(q{k})", True, False, "discard"),
+MEAS_OPS = [  # label, call template, target taken @owned, return annotation, index of the bit in the outputs, kind, consumed
+    ("quantum.measure", "quantum.measure(q{k})", True, "bool", 0, "measure", True),
+    ("qubit.measure", "q{k}.measure()", True, "bool", 0, "measure", True),
+    ("quantum.project_z", "quantum.project_z(q{k})", False, "bool", 0, "project", False),
+    ("qubit.project_z", "q{k}.project_z()", False, "bool", 0, "project", False),
+    ("quantum.reset", "quantum.reset(q{k})", False, None, None, "reset", False),
+    ("quantum.discard", "quantum.discard(q{k})", True, None, None, "discard", True),
+    ("qubit.discard", "q{k}.discard()", True, None, None, "discard", True),
+    ("qsystem.measure", "qsystem.measure(q{k})", True, "bool", 0, "measure", True),
+    ("qsystem.measure_and_reset", "qsystem.measure_and_reset(q{k})", False, "bool", 0, "measure_reset", False),
+    ("qsystem.reset", "qsystem.reset(q{k})", False, None, None, "reset", False),
+    ("qsystem.qfree", "qsystem.qfree(q{k})", True, None, None, "discard", True),
+    # functional wrappers: the qubit is taken @owned and (unless consumed) returned first
+    ("quantum.functional.reset", "quantum_functional.reset(q{k})", True, "qubit", None, "reset", False),
+    ("quantum.functional.project_z", "quantum_functional.project_z(q{k})", True, "tuple[qubit, bool]", 1, "project", False),
+    ("qsystem.functional.reset", "qsystem_functional.reset(q{k})", True, "qubit", None, "reset", False),
+    ("qsystem.functional.measure_and_reset", "qsystem_functional.measure_and_reset(q{k})", True, "tuple[qubit, bool]", 1,
+     "measure_reset", False),
+    ("qsystem.functional.measure", "qsystem_functional.measure(q{k})", True, "bool", 0, "measure", True),
+    ("qsystem.functional.qfree", "qsystem_functional.qfree(q{k})", True, None, None, "discard", True),
 ]
 
 
-def meas_src(fname, n, k, call, owned, bit):
+def meas_src(fname, n, k, call, owned, ret):
     ps = ", ".join(f"q{i}: qubit" + (" @ owned" if (owned and i == k) else "") for i in range(n))
     c = call.format(k=k)
-    if bit:
-        return f"@guppy\ndef {fname}({ps}) -> bool:\n    return {c}\n"
+    if ret:
+        return f"@guppy\ndef {fname}({ps}) -> {ret}:\n    return {c}\n"
     return f"@guppy\ndef {fname}({ps}) -> None:\n    {c}\n"
 
 
@@ -627,7 +674,7 @@ def tie_exec(ctx, prelude):
         finally:
             feed.unload(mod)
 
-    def report(tag, n, nparams, steps, params, seed, what, src):
+    def report(tag, n, nparams, steps, params, seed, what, src, owned=False):
         st_txt = "; ".join(step_src(s) for s in steps)
         key = f"exec:{n}q [{st_txt}] f={list(params)} init={seed}"
         ctx.violation(
@@ -635,7 +682,7 @@ def tie_exec(ctx, prelude):
             f"emulated state differs from the documented matrices ({what}) for `{st_txt}` on {n} qubits, f={list(params)}, "
             f"initial state {seed}",
             {"kind": "exec", "n": n, "nparams": nparams, "steps": [[s[0], s[1], list(s[2]), s[3]] for s in steps],
-             "params": list(params), "init": seed, "source": src, "program": tag, "what": what},
+             "params": list(params), "init": seed, "source": src, "program": tag, "what": what, "owned": owned},
         )
 
     def state_for(n, seed):
@@ -645,8 +692,9 @@ def tie_exec(ctx, prelude):
             return basis_state(n, int(seed[5:]))
         return rand_state(random.Random(seed), n)
 
-    def run_program(tag, n, nparams, steps, param_sets, seeds):
-        src = circuit_src("circ", n, nparams, steps)
+    def run_program(tag, n, nparams, steps, param_sets, seeds, owned=False):
+        owned = owned or any(st[0].endswith(".functional") for st in steps)
+        src = circuit_src("circ", n, nparams, steps, owned)
         try:
             h = lower_fn(src, "circ")
         except Exception as e:  # noqa: BLE001
@@ -661,7 +709,7 @@ def tie_exec(ctx, prelude):
                 psi0 = state_for(n, seed)
                 case = f"exec {tag} {short_hash(src)} f={params} init={seed}"
                 try:
-                    diff = _compare_circuit(h, "circ", n, steps, params, psi0)
+                    diff = _compare_circuit(h, "circ", n, steps, params, psi0, owned)
                 except ExecSkip as e:
                     ctx.count(case, nontrivial=False, kind="exec:skipped:" + str(e).split(":")[0])
                     continue
@@ -669,7 +717,8 @@ def tie_exec(ctx, prelude):
                     ctx.count(case, nontrivial=False, kind="exec:interp-error")
                     ctx.broke(f"execution oracle: interpreter error on `{tag}`: {type(e).__name__}: {str(e)[:120]}")
                     continue
-                ctx.count(case, nontrivial=len(steps) > 0, kind="exec:" + tag.split(":")[0].rstrip("0123456789"))
+                ctx.count(case, nontrivial=len(steps) > 0,
+                          kind="exec:" + ("f:" if tag.startswith("f:") else "") + tag.removeprefix("f:").split(":")[0].rstrip("0123456789"))
                 if diff is None:
                     continue
                 # shrink: the first single step that already differs on its own
@@ -681,17 +730,17 @@ def tie_exec(ctx, prelude):
                         continue
                     seen.add(sk)
                     try:
-                        s1 = circuit_src("circ", n, nparams, [st])
+                        s1 = circuit_src("circ", n, nparams, [st], owned)
                         h1 = lower_fn(s1, "circ")
-                        d1 = _compare_circuit(h1, "circ", n, [st], params, psi0)
+                        d1 = _compare_circuit(h1, "circ", n, [st], params, psi0, owned)
                     except Exception:  # noqa: BLE001
                         continue
                     if d1 is not None:
-                        report(tag, n, nparams, [st], params, seed, d1, s1)
+                        report(tag, n, nparams, [st], params, seed, d1, s1, owned)
                         found = True
                         break
                 if not found:
-                    report(tag, n, nparams, steps, params, seed, diff, src)
+                    report(tag, n, nparams, steps, params, seed, diff, src, owned)
                 return  # one report per program
 
     # ---- replay / corpus
@@ -712,28 +761,30 @@ def tie_exec(ctx, prelude):
 
     for i, r in enumerate(todo):
         steps = [(s[0], s[1], tuple(s[2]), [tup(a) for a in s[3]]) for s in r["steps"]]
-        if all((s[0], s[1]) in usable for s in steps):
-            run_program(f"corpus{i}", r["n"], r["nparams"], steps, [tuple(r["params"])], [r["init"]])
+        if all(base_key(s[0], s[1]) in usable for s in steps):
+            run_program(f"corpus{i}", r["n"], r["nparams"], steps, [tuple(r["params"])], [r["init"]], bool(r.get("owned")))
 
     # ---- (1) systematic circuits
     pvals = [(0.3, -0.85), (2.75, 0.125)] if ctx.quick else [(0.3, -0.85), (2.75, 0.125), (-1.5, 4.0), (0.0, 1.0)]
-    for tag, n, nparams, steps in _systematic_programs(usable):
+    for tag, n, nparams, steps, owned in _systematic_programs(usable):
         seeds = [ctx.rng.getrandbits(30), "zero"] if ctx.quick else [ctx.rng.getrandbits(30), ctx.rng.getrandbits(30), "zero"]
-        run_program(tag, n, nparams, steps, pvals, seeds)
+        run_program(tag, n, nparams, steps, pvals, seeds, owned)
     # ---- random circuits
     keys = sorted(usable)
     for i in range(ctx.n(12, 600)):
         n = ctx.rng.choice([2, 3, 3, 4])
         ks = [k for k in keys if GATES[k][0] <= n]
-        steps = [rand_step(ctx.rng, n, 2, ks) for _ in range(ctx.rng.choice([6, 10, 14]))]
+        fun = i % 2 == 1  # every other random circuit mixes functional wrappers and in-place calls on owned qubits
+        steps = [rand_step(ctx.rng, n, 2, ks, fun) for _ in range(ctx.rng.choice([6, 10, 14]))]
         params = [(round(ctx.rng.uniform(-3, 3), 3), round(ctx.rng.uniform(-3, 3), 3)) for _ in range(2)]
-        run_program(f"random{i}", n, 2, steps, params, [ctx.rng.getrandbits(30), "zero"])
+        run_program(("f:" if fun else "") + f"random{i}", n, 2, steps, params, [ctx.rng.getrandbits(30), "zero"], fun)
 
     # ---- (1b) measurement / reset / project_z: projective Z-basis semantics with forced outcomes
     n = 3
-    for label, call, owned, bit, kind in MEAS_OPS:
+    for label, call, owned, ret, bit_ix, kind, consumed in MEAS_OPS:
+        bit = bit_ix is not None
         for k in ([1] if ctx.quick else [0, 1, 2]):
-            src = meas_src("m", n, k, call, owned, bit)
+            src = meas_src("m", n, k, call, owned, ret)
             try:
                 h = lower_fn(src, "m")
             except Exception as e:  # noqa: BLE001
@@ -760,10 +811,12 @@ def tie_exec(ctx, prelude):
                     ctx.count(case, nontrivial=not str(seed).startswith("basis"), kind="exec-meas:" + kind)
                     problems = []
                     if bit:
-                        got = hi.from_hugr(outs[0], "bool")
+                        got = hi.from_hugr(outs[bit_ix], "bool")
                         if got != bool(b):
                             problems.append(f"returned {got} for forced outcome {b}")
-                    want_ids = [i for i in range(n) if not (owned and i == k)]
+                    want_ids = [i for i in range(n) if not (consumed and i == k)]
+                    if owned and not consumed and getattr(outs[0], "id", None) != k:
+                        problems.append(f"first returned value {outs[0]!r} is not the qubit passed in")
                     if ids != want_ids:
                         problems.append(f"live qubits {ids}, expected {want_ids}")
                     else:
